@@ -235,7 +235,7 @@ WalkNode(g, st, keys, n) ==
 GenWalk(g, sealed, root) ==
   WalkNode(g, [visited |-> {}, keys |-> [n \in Nodes(g) |-> <<"unreached">>], sealed |-> sealed], <<>>, root)
 
-GenFile == ("K" :> <<"p", "p.txt">>) @@ ("K2" :> <<"q", "q.txt">>) @@ ("K2Old" :> <<"q", "q.txt">>) @@ ("K2Older" :> <<"q", "q.txt">>) @@ ("T" :> <<"r", "r.txt">>) @@ ("G" :> <<"p", "g.txt">>)
+GenFile == ("K" :> <<"p", "p.txt">>) @@ ("K2" :> <<"q", "q.txt">>) @@ ("K2Old" :> <<"q", "q.txt">>) @@ ("K2Older" :> <<"q", "q.txt">>) @@ ("T" :> <<"r", "r.txt">>) @@ ("G" :> <<"p", "g.txt">>) @@ ("GF" :> <<"p", "f.txt">>)
 (* the generated path of node n as a sequence of path components below the job directory *)
 GenPath(keys, cls) == IF keys = <<>> THEN <<GenFile[cls][2]>> ELSE <<"out">> \o keys \o <<GenFile[cls][2]>>
 
